@@ -123,7 +123,7 @@ def gen_plan(rng, tier, i, seed):
         n, v = rng.choice(MALFORMED)
         extra = ["malformed", n, v]
     return {"w": gen_world(seed, i % cfg["worlds"]), "route": route, "settings": settings, "options": options,
-            "extra": extra, "dashes": rng.random() < 0.3,
+            "extra": extra, "dashes": rng.random() < (0.6 if route in ("cli", "profile_cli", "dump") else 0.3),
             "write_hashseed": rng.choice([0, 1, 2, 3]), "read_hashseed": rng.choice([0, 1, 2, 3, 4, 5])}
 
 
